@@ -3,7 +3,7 @@
 # then undo it straight away.   seed_run.sh <diff> <prop> [<prop>...]
 diff=$1; shift
 cd /repo && git status --porcelain | grep -v '^??' | grep -q . && { echo "/repo not clean"; exit 2; }
-git -C /repo apply "$diff" || { echo APPLY FAILED; exit 2; }
+git -C /repo apply "$diff" 2>/dev/null || git -C /repo apply -C1 "$diff" || { echo APPLY FAILED; exit 2; }   # (reduced context: /repo may have moved on since the agent's worktree was made)
 for p in "$@"; do
   (cd /verif && ./check $p --tier quick 2>&1 | grep -E "^(VIOLATION|KNOWN|UNDECIDED|property)" | cut -c1-260)
   echo "exit[$p]=$?"
